@@ -39,10 +39,29 @@ def add_existing(args, files):
                 files[a] = ("utf8", "")
 
 
+LOOPY = ["+[.+]", "-[.-]", "++++++++[>++++++++<-]>[.-]", ",[.-]", "+[.+]+[.+]", "++++[>++++[>++++<-]<-]>>[.-]"]
+
+
 def gen_case(rnd, tmpdir, idx):
     """Random command line: flags in random order with repeats, files, bare code arguments."""
     files = {}
     args = []
+    if rnd.random() < 0.2:
+        # budget-focused command line: a small --limit, possibly together with --static (the limit wins), on a
+        # program that writes far more than the budget allows
+        parts = [["--limit", rnd.choice(["1", "2", "5", "20"])], [rnd.choice(LOOPY)]]
+        if rnd.random() < 0.6:
+            parts.append(["--static"])
+        if rnd.random() < 0.7:
+            parts.append([rnd.choice(["--inplace", "--ir-int", "--bc-int", "--base-jit"])])
+        if rnd.random() < 0.5:
+            parts.append([rnd.choice(["-O0", "-O1", "-O2", "-O3"])])
+        if rnd.random() < 0.3:
+            parts.append([rnd.choice(["-i8", "-i16", "-i32", "-i64"])])
+        rnd.shuffle(parts)
+        args = [a for p in parts for a in p]
+        stdin = bytes(rnd.randint(1, 255) for _ in range(rnd.randint(0, 2)))
+        return args, files, stdin
     n = rnd.randint(1, 7)
     code_parts = 0
     for _ in range(n):
@@ -57,7 +76,7 @@ def gen_case(rnd, tmpdir, idx):
         elif r < 0.50:
             args += ["--limit", rnd.choice(["0", "1", "5", "1000", "100000", "x", "-3", "+7", "99999999999999999999", ""])]
         elif r < 0.53:
-            args.append("--limit")
+            args.append("--limit" if rnd.random() < 0.5 else "--static")
         elif r < 0.56:
             args.append(rnd.choice(["-h", "--help", "-help"]))
         elif r < 0.70:
@@ -108,6 +127,15 @@ def canonical_out(driver, bits, stdin, code, fuel=400000):
     return (rep[0], out)
 
 
+def inplace_limited_out(driver, bits, stdin, code, limit, fuel=400000):
+    """Output of the Lean model of the in-place interpreter under `--limit` (None when the model gives no verdict)."""
+    ins = "in=-" if not stdin else "in=" + ",".join(f"b{b:02x}" for b in stdin)
+    rep = driver.ask([f"inplace {bits} 1 {limit} {fuel} {ins} out=none {hexs(code)}"])[0].split()
+    if not rep or rep[0] not in ("ok", "interrupted"):
+        return None
+    return bytes(int(e[1:], 16) for e in (rep[1].split(",") if len(rep) > 1 and rep[1] != "-" else []) if e.startswith("o"))
+
+
 def expected_and_compare(driver, binary, args, files, stdin, timeout=10):
     """Returns (None | failure description, nontrivial?)."""
     m = model_query(driver, args, files)
@@ -116,6 +144,11 @@ def expected_and_compare(driver, binary, args, files, stdin, timeout=10):
     try:
         r = subprocess.run([binary] + args, input=stdin, capture_output=True, timeout=timeout)
     except subprocess.TimeoutExpired:
+        a = m["action"].split(":")
+        if a[0] == "exec" and a[4] != "none" and int(a[4]) <= 100000:
+            # the flags select a budget-limited run: it has to return in time bounded by the budget
+            return (f"args={args!r} stdin={stdin.hex()}: the command line selects --limit {a[4]} "
+                    f"but the process did not return within {timeout} s (limit not applied?)"), True
         return None, False    # long-running program without a limit: not judged here
     out, err, rc = r.stdout, r.stderr.decode("utf-8", "replace").split("\n")[:-1], r.returncode
     act = m["action"].split(":")
@@ -172,6 +205,16 @@ def expected_and_compare(driver, binary, args, files, stdin, timeout=10):
             if out != can[1]:
                 return f"{desc}: stdout {out[:60]!r} but the canonical run of the concatenated code {text!r} at {bits} bit writes {can[1][:60]!r}", True
         else:
+            if kind == "inplace":
+                exp = inplace_limited_out(driver, bits, stdin, m["code"], int(limit))
+                if exp is not None and out != exp:
+                    return f"{desc}: in-place run with --limit {limit} wrote {out[:60]!r}, the model of the limited in-place run writes {exp[:60]!r}", True
+            dots = text.count(".")
+            if int(limit) >= 1 and len(out) > (int(limit) + 2) * max(dots, 1) + 2:
+                # every back end charges at least one unit per executed branch / loop iteration, and between two
+                # charges straight-line code runs, which executes each `.` of the text at most once
+                return (f"{desc}: run with --limit {limit} wrote {len(out)} bytes; at most ({limit}+2)*{max(dots,1)}+2 are possible "
+                        f"when every branch is charged (limit not applied?)"), True
             if not can[1].startswith(out):
                 return f"{desc}: limited run wrote {out[:60]!r}, not a prefix of canonical {can[1][:60]!r}", True
             if int(limit) >= 400000 and out != can[1]:
@@ -196,8 +239,8 @@ def c16_cli(run, harnesses):
         kinds = {}
         for i in range(count):
             args, files, stdin = gen_case(rnd, tmpdir, i)
-            if "--static" in args:
-                continue
+            if "--static" in args and any(a in ("-i16", "-i32", "-i64") for a in args):
+                continue        # --static pre-allocates 2^29 cells: judged at 8 bit only (512 MiB of address space)
             v, nontriv = expected_and_compare(run.driver, binary, args, files, stdin)
             run.evaluations += 1
             if nontriv:
